@@ -1,1 +1,116 @@
-// placeholder
+//! Exact-size, unrankable generator combinators. A `Gen<T>` is a finite indexed family
+//! `0..count → T` with a fixed, simplest-first order; nothing is sampled.
+
+use std::sync::Arc;
+
+pub struct Gen<T> {
+    pub count: u64,
+    f: Arc<dyn Fn(u64) -> T + Send + Sync>,
+}
+
+impl<T> Clone for Gen<T> {
+    fn clone(&self) -> Self {
+        Gen { count: self.count, f: Arc::clone(&self.f) }
+    }
+}
+
+impl<T: Clone + Send + Sync + 'static> Gen<T> {
+    pub fn new(count: u64, f: impl Fn(u64) -> T + Send + Sync + 'static) -> Self {
+        Gen { count, f: Arc::new(f) }
+    }
+    pub fn nth(&self, i: u64) -> T {
+        debug_assert!(i < self.count);
+        (self.f)(i)
+    }
+    pub fn of(items: Vec<T>) -> Self {
+        let n = items.len() as u64;
+        let items = Arc::new(items);
+        Gen::new(n, move |i| items[i as usize].clone())
+    }
+    pub fn one(item: T) -> Self {
+        Gen::of(vec![item])
+    }
+    pub fn empty() -> Self {
+        Gen::new(0, |_| unreachable!())
+    }
+    pub fn map<U: Clone + Send + Sync + 'static>(
+        &self,
+        g: impl Fn(T) -> U + Send + Sync + 'static,
+    ) -> Gen<U> {
+        let f = Arc::clone(&self.f);
+        Gen::new(self.count, move |i| g(f(i)))
+    }
+    /// concatenation (disjoint union, in order)
+    pub fn or(parts: Vec<Gen<T>>) -> Gen<T> {
+        let parts: Vec<Gen<T>> = parts.into_iter().filter(|p| p.count > 0).collect();
+        let total: u64 = parts.iter().map(|p| p.count).sum();
+        let mut ends = Vec::with_capacity(parts.len());
+        let mut acc = 0;
+        for p in &parts {
+            acc += p.count;
+            ends.push(acc);
+        }
+        Gen::new(total, move |i| {
+            let k = ends.partition_point(|&e| e <= i);
+            let base = if k == 0 { 0 } else { ends[k - 1] };
+            parts[k].nth(i - base)
+        })
+    }
+    /// materialise (small families only)
+    pub fn all(&self) -> Vec<T> {
+        (0..self.count).map(|i| self.nth(i)).collect()
+    }
+}
+
+pub fn pair<A, B, T>(a: &Gen<A>, b: &Gen<B>, f: impl Fn(A, B) -> T + Send + Sync + 'static) -> Gen<T>
+where
+    A: Clone + Send + Sync + 'static,
+    B: Clone + Send + Sync + 'static,
+    T: Clone + Send + Sync + 'static,
+{
+    let (a, b) = (a.clone(), b.clone());
+    let count = a.count.checked_mul(b.count).expect("generator size overflow");
+    // the *second* component varies fastest
+    Gen::new(count, move |i| f(a.nth(i / b.count), b.nth(i % b.count)))
+}
+
+pub fn triple<A, B, C, T>(
+    a: &Gen<A>,
+    b: &Gen<B>,
+    c: &Gen<C>,
+    f: impl Fn(A, B, C) -> T + Send + Sync + 'static,
+) -> Gen<T>
+where
+    A: Clone + Send + Sync + 'static,
+    B: Clone + Send + Sync + 'static,
+    C: Clone + Send + Sync + 'static,
+    T: Clone + Send + Sync + 'static,
+{
+    let (a, b, c) = (a.clone(), b.clone(), c.clone());
+    let count = a.count.checked_mul(b.count).and_then(|x| x.checked_mul(c.count)).expect("overflow");
+    Gen::new(count, move |i| {
+        let ci = i % c.count;
+        let r = i / c.count;
+        f(a.nth(r / b.count), b.nth(r % b.count), c.nth(ci))
+    })
+}
+
+/// all sequences of length exactly `k`
+pub fn seq_exact<T: Clone + Send + Sync + 'static>(g: &Gen<T>, k: u32) -> Gen<Vec<T>> {
+    let g = g.clone();
+    let count = g.count.checked_pow(k).expect("generator size overflow");
+    Gen::new(count, move |mut i| {
+        let mut v = Vec::with_capacity(k as usize);
+        for _ in 0..k {
+            v.push(g.nth(i % g.count));
+            i /= g.count;
+        }
+        v.reverse();
+        v
+    })
+}
+
+/// all sequences of length lo..=hi, shortest first
+pub fn seq_range<T: Clone + Send + Sync + 'static>(g: &Gen<T>, lo: u32, hi: u32) -> Gen<Vec<T>> {
+    Gen::or((lo..=hi).map(|k| seq_exact(g, k)).collect())
+}
